@@ -18,18 +18,27 @@ Proof. intros Hs m. unfold upd. destruct (ident_eqb (U m) (U n)); auto. Qed.
 Lemma eqU_updT s s' n v : eqU s s' -> eqU s (upd s' (T n) v).
 Proof. intros Hs m. unfold upd. cbn [ident_eqb]. apply Hs. Qed.
 
-Definition rel (a b : H) : Prop :=
+(* strict agreement: same outcome, same trace, same user variables *)
+Definition rel0 (a b : H) : Prop :=
   fst (fst a) = fst (fst b) /\ snd a = snd b /\ eqU (snd (fst a)) (snd (fst b)).
+(* forward simulation: unless the reference run exhausts its fuel, the runs agree *)
+Definition rel (a b : H) : Prop := fst (fst a) = HT \/ rel0 a b.
 
 Lemma rel_mk o s s' t : eqU s s' -> rel (o, s, t) (o, s', t).
-Proof. intros E. repeat split; auto. Qed.
+Proof. intros E. right. repeat split; auto. Qed.
 
 Lemma rel_bindV a b k k' :
   rel a b -> (forall v s s' t, eqU s s' -> rel (k v s t) (k' v s' t)) -> rel (bindV a k) (bindV b k').
 Proof.
-  destruct a as [[oa sa] ta], b as [[ob sb] tb]. intros [A [B C]] HK. cbn [fst snd] in A, B, C. subst ob tb.
-  unfold bindV. destruct oa; [apply HK; exact C | ..]; repeat split; auto.
+  destruct a as [[oa sa] ta], b as [[ob sb] tb]. intros [A | [A [B C]]] HK.
+  - cbn [fst] in A. subst oa. left. reflexivity.
+  - cbn [fst snd] in A, B, C. subst ob tb.
+    unfold bindV. destruct oa; [apply HK; exact C | ..]; right; repeat split; auto.
 Qed.
+
+(* fuel levels: the reference runs with fuel [ln], the compiled code with strictly more *)
+Record lvl := { ln : nat; lk : nat }.
+Definition tfuel (l : lvl) : nat := ln l + S (lk l).
 
 Section Sim.
 Variable fault : nat -> option exn.
